@@ -132,6 +132,18 @@ impl Sym {
     /// IEEE-faithful division: a symbolic denominator that may be zero forks the path; on the
     /// zero branch the quotient is the IEEE value (+-inf / NaN) the native code would compute.
     fn div_ieee(self, o: Sym) -> Sym {
+        if o.as_const() == Some(0.0) && self.as_const().is_none() {
+            // symbolic numerator over a constant zero: IEEE gives +-inf by the numerator's sign (NaN for 0/0)
+            let z = Sym::konst(0.0);
+            let neg_zero = o.as_const().map_or(false, |d| d.is_sign_negative());
+            if eng::decide(z.c_lt(self)) {
+                return Sym::konst(if neg_zero { f64::NEG_INFINITY } else { f64::INFINITY });
+            }
+            if eng::decide(self.c_lt(z)) {
+                return Sym::konst(if neg_zero { f64::INFINITY } else { f64::NEG_INFINITY });
+            }
+            return Sym::konst(f64::NAN);
+        }
         if o.as_const().is_none() && !with_st(|st| st.arena.as_ground(o.0).is_some()) {
             let z = Sym::konst(0.0);
             if !with_st(|st| st.fork_div_zero) {
